@@ -203,3 +203,33 @@ def checkEndpointLocation (binding : String) (location : Bytes) : Outcome Bytes 
   else .ok []
 
 end SamlVerif.Html
+
+namespace SamlVerif.Html
+
+/-- `Endpoint.UnmarshalXML`: (Location, ResponseLocation); an empty ResponseLocation is not checked -/
+def unmarshalEndpoint (binding : String) (loc resp : Bytes) : Outcome (Bytes × Bytes) :=
+  match checkEndpointLocation binding loc with
+  | .err e => .err e
+  | .panic w => .panic w
+  | .ok loc' =>
+    if resp = [] then .ok (loc', [])
+    else match checkEndpointLocation binding resp with
+      | .err e => .err e
+      | .panic w => .panic w
+      | .ok resp' => .ok (loc', resp')
+
+/-- `IndexedEndpoint.UnmarshalXML`: ResponseLocation is a pointer; a blanked one becomes nil -/
+def unmarshalIndexedEndpoint (binding : String) (loc : Bytes) (resp : Option Bytes) : Outcome (Bytes × Option Bytes) :=
+  match checkEndpointLocation binding loc with
+  | .err e => .err e
+  | .panic w => .panic w
+  | .ok loc' =>
+    match resp with
+    | none => .ok (loc', none)
+    | some r =>
+      match checkEndpointLocation binding r with
+      | .err e => .err e
+      | .panic w => .panic w
+      | .ok r' => .ok (loc', if r' = [] then none else some r')
+
+end SamlVerif.Html
